@@ -118,9 +118,10 @@ impl<L: Debug> Debug for RefLockCollection<'_, L> {
 	}
 }
 
-// safety: the RawLocks must be send because they come from the Send Lockable
+// safety: this only holds shared references into L, so it can be sent to
+//         another thread only if L can be shared with that thread
 #[allow(clippy::non_send_fields_in_send_ty)]
-unsafe impl<L: Send> Send for RefLockCollection<'_, L> {}
+unsafe impl<L: Sync> Send for RefLockCollection<'_, L> {}
 unsafe impl<L: Sync> Sync for RefLockCollection<'_, L> {}
 
 impl<'a, L: OwnedLockable + Default> From<&'a L> for RefLockCollection<'a, L> {
